@@ -314,49 +314,53 @@ Definition node_deref (r : tnode) (p : path) : tnode * list ev :=
   | None => (r, [])
   end.
 
-(* ---------- trie_node_next(node, root, all = QB_FALSE): pre-order successor inside root's subtree ---------- *)
+(* ---------- trie_node_next(node, root, all = QB_FALSE): pre-order successor inside root's subtree ----------
+   Paths returned by the forest functions are relative to the forest they are called on (index 0 = its first
+   slot); [bump] shifts the head index when the result comes from the tail of the array. *)
+Definition bump (p : path) : path := match p with [] => [] | j :: p' => S j :: p' end.
+
 Fixpoint first_t (t : tnode) {struct t} : option path :=       (* child/outward from t: first live strict descendant *)
-  match t with TN _ _ f => first_f f 0 end
-with first_f (f : forest) (pos : nat) {struct f} : option path :=
+  match t with TN _ _ f => first_f f end
+with first_f (f : forest) {struct f} : option path :=
   match f with
   | FNil => None
   | FCons c f' =>
-    match first_f f' (S pos) with                      (* for (i = num_children - 1; i >= 0; i--) *)
-    | Some p => Some p
+    match first_f f' with                              (* for (i = num_children - 1; i >= 0; i--) *)
+    | Some p => Some (bump p)
     | None => match c with
               | None => None
-              | Some t => if alive t then Some [pos]
-                          else match first_t t with Some p => Some (pos :: p) | None => None end
+              | Some t => if alive t then Some [0]
+                          else match first_t t with Some p => Some (0 :: p) | None => None end
               end
     end
   end.
 
-Definition self_or_first (c : option tnode) (pos : nat) : option path :=
+Definition self_or_first (c : option tnode) : option path :=
   match c with
   | None => None
-  | Some t => if alive t then Some [pos] else match first_t t with Some p => Some (pos :: p) | None => None end
+  | Some t => if alive t then Some [0] else match first_t t with Some p => Some (0 :: p) | None => None end
   end.
 
 Fixpoint next_t (t : tnode) (rel : path) {struct t} : option path :=
   match t with
   | TN _ _ f =>
     match rel with
-    | [] => first_f f 0
-    | j :: rel' => next_f f j rel' 0
+    | [] => first_f f
+    | j :: rel' => next_f f j rel'
     end
   end
-with next_f (f : forest) (j : nat) (rel : path) (pos : nat) {struct f} : option path :=
+with next_f (f : forest) (j : nat) (rel : path) {struct f} : option path :=
   match f with
   | FNil => None
   | FCons c f' =>
     match j with
     | 0 => match c with
-           | Some t => match next_t t rel with Some p => Some (pos :: p) | None => None end
+           | Some t => match next_t t rel with Some p => Some (0 :: p) | None => None end
            | None => None
            end
-    | S j' => match next_f f' j' rel (S pos) with
-              | Some p => Some p
-              | None => self_or_first c pos             (* sibling/parent: for (i = p->idx - 1; i >= 0; i--) *)
+    | S j' => match next_f f' j' rel with
+              | Some p => Some (bump p)
+              | None => self_or_first c                 (* sibling/parent: for (i = p->idx - 1; i >= 0; i--) *)
               end
     end
   end.
